@@ -64,7 +64,8 @@ type c06StreamObs struct {
 	Crash    string   `json:"crash,omitempty"`
 }
 
-func c06RunStream(handler bool, stream []byte) c06StreamObs {
+func c06RunStream(handler bool, mpl int, stream []byte) c06StreamObs {
+	sessMaxPayload = mpl
 	s, err := newSession(handler, nil)
 	if err != nil {
 		return c06StreamObs{Crash: "connect: " + err.Error()}
@@ -126,7 +127,9 @@ func runC06Child(cfg *runCfg) error {
 			var o interface{}
 			switch sc.Mode {
 			case "exit":
-				o = c06RunExit(sc.Handler, sc.Stream)
+				o = c06RunExit(sc.Handler, sc.Mpl, sc.Stream)
+			case "mux":
+				o = c06RunMux(sc.Cfg, sc.Stream)
 			case "alloc":
 				o = c06RunAlloc(sc.BodyLen)
 			case "resub":
@@ -142,7 +145,12 @@ func runC06Child(cfg *runCfg) error {
 			parts := strings.SplitN(line, " ", 2)
 			stream, _ := hex.DecodeString(strings.TrimPrefix(parts[1], "x"))
 			fmt.Fprintf(os.Stderr, "CASE %s\n", line[:min(len(line), 80)])
-			o := c06RunStream(parts[0] == "1", stream)
+			hm := strings.SplitN(parts[0], ",", 2)
+			mpl := 0
+			if len(hm) == 2 {
+				fmt.Sscan(hm[1], &mpl)
+			}
+			o := c06RunStream(hm[0] == "1", mpl, stream)
 			b, _ := json.Marshal(o)
 			out.Write(b)
 			out.WriteByte('\n')
@@ -179,12 +187,12 @@ func c06Spawn() (*c06Child, error) {
 	return &c06Child{cmd: cmd, stdin: stdin, stdout: bufio.NewReaderSize(stdout, 1<<20), stderr: sb}, nil
 }
 
-func (c *c06Child) run(handler bool, stream []byte) (c06StreamObs, bool) {
+func (c *c06Child) run(handler bool, mpl int, stream []byte) (c06StreamObs, bool) {
 	h := "0"
 	if handler {
 		h = "1"
 	}
-	if _, err := fmt.Fprintf(c.stdin, "%s x%s\n", h, hex.EncodeToString(stream)); err != nil {
+	if _, err := fmt.Fprintf(c.stdin, "%s,%d x%s\n", h, mpl, hex.EncodeToString(stream)); err != nil {
 		return c06StreamObs{}, false
 	}
 	line, err := c.stdout.ReadString('\n')
@@ -467,7 +475,7 @@ func c06BadPacket(r *rand.Rand) ([]byte, string) {
 
 func runC06(cfg *runCfg) error {
 	r := rand.New(rand.NewSource(cfg.seed))
-	cf := newCasesFile("C06", "Codec", "Inbound", "Parse", "ParseSpec", "ParsePending", "ParseExit", "ParseResub", "CheckC06")
+	cf := newCasesFile("C06", "Codec", "Inbound", "Parse", "ParseSpec", "ParsePending", "ParseExit", "ParseResub", "ParseMux", "CheckC06")
 	m := &meta{Property: "C06", Distribution: map[string]interface{}{}, Families: map[string][]interface{}{}}
 	dist := map[string]int{}
 
@@ -611,6 +619,17 @@ func runC06(cfg *runCfg) error {
 		s := append(append([]byte{}, encPublish(inMsg{Topic: t, QoS: byte(i % 2), ID: 9, Payload: []byte{7}})...), good2...)
 		scs = append(scs, sc{true, s, "high-bytes-no-nul"})
 	}
+	// malformed packets with large bodies into clients with MaxPayloadLen set
+	bigMpl := map[int]int{}
+	bigCoq := map[int]string{}
+	bigDesc := map[int]string{}
+	bigs := c06BigStreams(cfg.tier)
+	for _, b := range bigs {
+		bigMpl[len(scs)] = b.mpl
+		bigCoq[len(scs)] = b.coq
+		bigDesc[len(scs)] = b.desc
+		scs = append(scs, sc{false, b.stream, b.label})
+	}
 	nQ2Rand := 40
 	if cfg.tier != "quick" {
 		nQ2Rand = 600
@@ -666,9 +685,18 @@ func runC06(cfg *runCfg) error {
 	}
 	var streamCases []string
 	nCrash := 0
-	for _, c := range scs {
-		// streams that legitimately request very large buffers are expensive: cap their number
-		o, ok := child.run(c.handler, c.stream)
+	mplDim := []int{0, 1, 100, 65536}
+	for i, c := range scs {
+		// MaxPayloadLen is a session dimension: it limits outbound messages and must not influence
+		// what serve() does with inbound bytes
+		mpl := mplDim[i%4]
+		streamCoq, streamDesc := "", ""
+		if v, ok := bigMpl[i]; ok {
+			mpl, streamCoq, streamDesc = v, bigCoq[i], bigDesc[i]
+		} else {
+			streamCoq, streamDesc = cBytes(c.stream), fmt.Sprintf("%x", c.stream)
+		}
+		o, ok := child.run(c.handler, mpl, c.stream)
 		if !ok {
 			crash := child.kill()
 			nCrash++
@@ -683,10 +711,11 @@ func runC06(cfg *runCfg) error {
 			errc = "(Some " + p + ")"
 		}
 		closedOK := len(o.States) == 2 && o.States[0] == "Active:nil" && o.States[1] == "Closed:"+o.Err
-		streamCases = append(streamCases, cTuple(cBool(c.handler), cBytes(c.stream), cBool(o.Survived && !o.Hang), fmt.Sprint(o.MaxRead), errc, cBool(closedOK && o.Done), cListInline(o.Events)))
+		streamCases = append(streamCases, cTuple(cBool(c.handler), streamCoq, cBool(o.Survived && !o.Hang), fmt.Sprint(o.MaxRead), errc, cBool(closedOK && o.Done), cListInline(o.Events)))
 		dist["stream_"+c.label]++
 		dist["stream_end_"+o.Err]++
-		fc := map[string]interface{}{"handler": c.handler, "stream": fmt.Sprintf("%x", c.stream), "kind": c.label, "survived": o.Survived, "hang": o.Hang, "max_read": o.MaxRead, "err": o.Err, "states": o.States, "timeline": o.Desc, "crash": o.Crash}
+		dist[fmt.Sprintf("stream_max_payload_len_%d", mpl)]++
+		fc := map[string]interface{}{"handler": c.handler, "max_payload_len": mpl, "stream": streamDesc, "kind": c.label, "survived": o.Survived, "hang": o.Hang, "max_read": o.MaxRead, "err": o.Err, "states": o.States, "timeline": o.Desc, "crash": o.Crash}
 		m.Families["stream"] = append(m.Families["stream"], fc)
 		if len(m.Samples) < 4 && strings.HasPrefix(c.label, "corpus") == false && len(o.Desc) > 0 && c.label != "all-good" {
 			m.Samples = append(m.Samples, fc)
@@ -813,10 +842,26 @@ func runC06(cfg *runCfg) error {
 		}
 		return "None", true
 	}
+	exitCoq := map[int]string{}
+	exitMpl := map[int]int{}
+	for i, b := range bigs {
+		if i%7 == 0 || (cfg.tier != "quick" && i%2 == 0) {
+			exitMpl[len(exitStreams)] = b.mpl
+			exitCoq[len(exitStreams)] = b.coq
+			exitStreams = append(exitStreams, sc{false, b.stream, b.label})
+		}
+	}
 	var exitCases []string
-	for _, c := range exitStreams {
+	for i, c := range exitStreams {
+		mpl := mplDim[i%4]
+		streamCoq := cBytes(c.stream)
+		streamDesc := fmt.Sprintf("%x", c.stream)
+		if v, ok := exitMpl[i]; ok {
+			mpl, streamCoq = v, exitCoq[i]
+			streamDesc = fmt.Sprintf("%x... (%d bytes)", c.stream[:40], len(c.stream))
+		}
 		var o c06ExitObs
-		if !child.runJSON(&c06Scenario{Mode: "exit", Handler: c.handler, Stream: c.stream}, &o) {
+		if !child.runJSON(&c06Scenario{Mode: "exit", Handler: c.handler, Mpl: mpl, Stream: c.stream}, &o) {
 			crash := child.kill()
 			nCrash++
 			o = c06ExitObs{Survived: false, Crash: crash}
@@ -832,10 +877,10 @@ func runC06(cfg *runCfg) error {
 		e2, ok2 := perrOpt(o.ErrAtDone)
 		rep, ok3 := closedReported(o.StatesAtDone)
 		alive := o.Survived && len(o.Stuck) == 0 && ok1 && ok2 && ok3
-		exitCases = append(exitCases, cTuple(cBool(c.handler), cBytes(c.stream), cBool(alive), cBool(o.DoneAtEntry), cBool(o.DoneWhileHeld), e1, e2, rep))
+		exitCases = append(exitCases, cTuple(cBool(c.handler), streamCoq, cBool(alive), cBool(o.DoneAtEntry), cBool(o.DoneWhileHeld), e1, e2, rep))
 		dist["exit_"+c.label]++
-		m.Families["exit"] = append(m.Families["exit"], map[string]interface{}{"transport": "Close() blocks until released", "handler": c.handler,
-			"stream": fmt.Sprintf("%x", c.stream), "kind": c.label, "observation": o})
+		m.Families["exit"] = append(m.Families["exit"], map[string]interface{}{"transport": "Close() blocks until released", "handler": c.handler, "max_payload_len": mpl,
+			"stream": streamDesc, "kind": c.label, "observation": o})
 	}
 	child.kill()
 	cf.def("exit_cases", "list exit_case", cList(exitCases))
@@ -876,6 +921,44 @@ func runC06(cfg *runCfg) error {
 	cf.def("alloc_cases", "list alloc_case", cList(allocCases))
 	cf.result("V_alloc", "c06_alloc_violations alloc_cases")
 	cf.result("M_alloc", "c06_alloc_mismatches alloc_cases")
+	// ---- streams into a client whose handler is a ServeMux / nested ServeMux / ServeAsync ----
+	child, err = c06Spawn()
+	if err != nil {
+		return err
+	}
+	var muxCases []string
+	for _, msc := range c06MuxScenarios(r, cfg.tier) {
+		var o c06MuxObs
+		if !child.runJSON(&c06Scenario{Mode: "mux", Cfg: msc.cfg, Stream: msc.stream}, &o) {
+			crash := child.kill()
+			nCrash++
+			o = c06MuxObs{Survived: false, Crash: crash}
+			child, err = c06Spawn()
+			if err != nil {
+				return err
+			}
+		}
+		if strings.HasPrefix(o.Crash, "connect:") {
+			return fmt.Errorf("mux scenario could not connect: %s", o.Crash)
+		}
+		tree, async := c06MuxTree(msc.cfg)
+		errc, okc := perrOpt(o.Err)
+		closedOK := len(o.States) == 2 && o.States[0] == "Active:nil" && o.States[1] == "Closed:"+o.Err && o.Err != "nil"
+		alive := o.Survived && len(o.Stuck) == 0 && okc
+		muxCases = append(muxCases, cTuple(cBool(async), "("+c06MuxCoq(tree)+")", cBytes(msc.stream), cBool(alive), errc, cBool(closedOK && o.Done), cListInline(o.Deliveries)))
+		dist[fmt.Sprintf("mux_handler_%d", msc.cfg)]++
+		sd := fmt.Sprintf("%x", msc.stream)
+		if len(sd) > 400 {
+			sd = sd[:400] + fmt.Sprintf("... (%d bytes)", len(msc.stream))
+		}
+		m.Families["mux"] = append(m.Families["mux"], map[string]interface{}{"handler": []string{"ServeMux{sensor/#,+/temp,#,a/+,$SYS/#,/,a/,+}", "ServeMux{sensor/#, n/# -> ServeMux{n/+/x,+/a/#,#}, +/+}", "ServeAsync{ServeMux{sensor/#,+/temp,#,a/+,$SYS/#,/,a/,+}}"}[msc.cfg],
+			"stream": sd, "kind": msc.label, "observation": map[string]interface{}{"survived": o.Survived, "stuck": o.Stuck, "err": o.Err, "states": o.States, "deliveries": o.Desc, "crash": o.Crash}})
+	}
+	child.kill()
+	cf.def("mux_cases", "list mux_case", cList(muxCases))
+	cf.result("V_mux", "c06_mux_violations mux_cases")
+	cf.result("M_mux", "c06_mux_mismatches mux_cases")
+
 	// ---- hostile SUBACK codes, link loss, re-subscription through a RetryClient ----
 	child, err = c06Spawn()
 	if err != nil {
@@ -922,9 +1005,9 @@ func runC06(cfg *runCfg) error {
 	m.Distribution["parse_random"] = nRandParse
 	m.Distribution["parse_panics"] = nPanic
 	m.Distribution["stream_crashes"] = nCrash
-	m.Evaluations = len(parseCases) + len(streamCases) + len(inflightCases) + len(exitCases) + len(allocCases) + len(resubCases)
-	m.DistinctNontrivial = nEnumParse + nNulParse + len(streamCases) - dist["stream_all-good"] + len(inflightCases) + len(exitCases) + len(allocCases) + len(resubCases)
-	m.Rule = fmt.Sprintf("parsers: every (type, flag) x every body over {00,01,02,80,FF} up to length %d through the hook VerifParse (panics recovered), plus %d random/structured bodies, plus %d PUBLISH bodies whose topic mixes multi-byte / ill-formed UTF-8 fragments with the byte 00 at every position (and the same fragments without 00); streams: corpus of the repaired defects, good PUBLISH + PUBLISH with such a topic + good PUBLISH, an inbound QoS 2 PUBLISH (payload of 1/4/20 distinct bytes) + 1-4 further small packets of 12 kinds (PUBLISH QoS 0/1/2 with smaller/equal/larger payloads, stray acknowledgements, PINGRESP, CONNACK) + its PUBREL, complete and as prefix of a malformed packet, then good packets followed by a malformed packet of 14 kinds / truncation / one-byte mutation / random bytes, fed to a connected BaseClient in a child process with a 6 GiB address-space limit (a crash is attributed to the exact stream); in flight: 1-3 blocking calls (Subscribe with 1-4 filters, Unsubscribe, Publish QoS 1/2, Ping) on a connected BaseClient in a child process, the peer answers with hostile acknowledgements carrying their identifiers (SUBACK with 0/n-1/n+1/n+5/255 codes, failure and illegal codes, flags, short and long bodies, duplicates, other kinds, CONNACK again, truncation), enumerated per request kind plus random combinations; exit: streams (peer closes, malformed kinds, truncation) into a client whose transport blocks in Close() until released, with Done(), Err() and the callback log sampled inside Close(), while it is held, and right after Done() is seen closed; alloc: one QoS 0 PUBLISH whose body (144 MiB; thorough also 1, 70, 129 MiB and 268,435,455 bytes) is generated into the buffers the reader passes to Read, runtime.MemStats.TotalAlloc difference around it; resub: a RetryClient subscribes 1-3 times with 1-3 filters, the broker answers with return codes from {00,01,02,80,03,7F,FF} (every requested QoS x every code for one filter, random combinations, a wrong number of codes for the last Subscribe), the link is lost, SetClient + Connect without session present + Resubscribe + Retry + Ping on a second connection, all in a child process. distinct_nontrivial = enumerated parser inputs (distinct by construction) + streams that are not all-good + in-flight scenarios", L, nRandParse, nNulParse)
+	m.Evaluations = len(parseCases) + len(streamCases) + len(inflightCases) + len(exitCases) + len(allocCases) + len(resubCases) + len(muxCases)
+	m.DistinctNontrivial = nEnumParse + nNulParse + len(streamCases) - dist["stream_all-good"] + len(inflightCases) + len(exitCases) + len(allocCases) + len(resubCases) + len(muxCases)
+	m.Rule = fmt.Sprintf("parsers: every (type, flag) x every body over {00,01,02,80,FF} up to length %d through the hook VerifParse (panics recovered), plus %d random/structured bodies, plus %d PUBLISH bodies whose topic mixes multi-byte / ill-formed UTF-8 fragments with the byte 00 at every position (and the same fragments without 00); streams: corpus of the repaired defects, good PUBLISH + PUBLISH with such a topic + good PUBLISH, an inbound QoS 2 PUBLISH (payload of 1/4/20 distinct bytes) + 1-4 further small packets of 12 kinds (PUBLISH QoS 0/1/2 with smaller/equal/larger payloads, stray acknowledgements, PINGRESP, CONNACK) + its PUBREL, complete and as prefix of a malformed packet, then good packets followed by a malformed packet of 14 kinds / truncation / one-byte mutation / random bytes, fed to a connected BaseClient in a child process with a 6 GiB address-space limit (a crash is attributed to the exact stream); in flight: 1-3 blocking calls (Subscribe with 1-4 filters, Unsubscribe, Publish QoS 1/2, Ping) on a connected BaseClient in a child process, the peer answers with hostile acknowledgements carrying their identifiers (SUBACK with 0/n-1/n+1/n+5/255 codes, failure and illegal codes, flags, short and long bodies, duplicates, other kinds, CONNACK again, truncation), enumerated per request kind plus random combinations; exit: streams (peer closes, malformed kinds, truncation) into a client whose transport blocks in Close() until released, with Done(), Err() and the callback log sampled inside Close(), while it is held, and right after Done() is seen closed; alloc: one QoS 0 PUBLISH whose body (144 MiB; thorough also 1, 70, 129 MiB and 268,435,455 bytes) is generated into the buffers the reader passes to Read, runtime.MemStats.TotalAlloc difference around it; resub: a RetryClient subscribes 1-3 times with 1-3 filters, the broker answers with return codes from {00,01,02,80,03,7F,FF} (every requested QoS x every code for one filter, random combinations, a wrong number of codes for the last Subscribe), the link is lost, SetClient + Connect without session present + Resubscribe + Retry + Ping on a second connection, all in a child process; mux: PUBLISH packets with boundary topic names (empty, /, //, leading/trailing /, $-topics, filter strings, long, ill-formed UTF-8) into a client whose handler is a ServeMux, a nested ServeMux or ServeAsync{ServeMux}, in a child process; MaxPayloadLen of the client is a session dimension (0, 1, 100, 65536) of the stream and exit families, with every malformed kind also sent with a body above MaxPayloadLen+65539 (just above, 200 KiB; thorough 1 MiB). distinct_nontrivial = enumerated parser inputs (distinct by construction) + streams that are not all-good + in-flight scenarios", L, nRandParse, nNulParse)
 	m.Exhaustive = true
 	if err := cf.write(cfg.outDir); err != nil {
 		return err
